@@ -687,6 +687,15 @@ func runC17(t *testing.T, rep *mc.Reporter) {
 			rep.Machinery("bad replay scenario: "+err.Error(), nil)
 			return
 		}
+		if scn.Op == "mode-switch" {
+			var b c17bScenario
+			if err := json.Unmarshal(rp.Scenario, &b); err != nil {
+				rep.Machinery("bad replay scenario: "+err.Error(), nil)
+				return
+			}
+			rep.Exec(b, nil, c17bJudge(b, c17bExec(t, b)))
+			return
+		}
 		// repeat until the recorded visiting orders come up again
 		for try := 0; try < 20000; try++ {
 			o := c17Exec(t, scn)
@@ -738,6 +747,7 @@ func runC17(t *testing.T, rep *mc.Reporter) {
 		rep.Exec(scn, nil, res)
 	}
 	idx := 0
+	runC17Bisync(t, rep, budget, &idx)
 	for _, base := range c17Scenarios(tier) {
 		idx++
 		if idx%nshards != shard {
